@@ -72,6 +72,58 @@ func VH_C10_CachedTicket() {
 	}
 }
 
+// VH_C10_SessionRefresh: a TGT session with arbitrary times.  The TGT is refreshed exactly when it is in the
+// last sixth of its life; the call returns (no lock is held across the refresh), and what it hands out is
+// the (TGT, session key) pair the session holds afterwards.
+func VH_C10_SessionRefresh() {
+	cl := vhClient()
+	auth, end, renew := zzverif.AnyTime(), zzverif.AnyTime(), zzverif.AnyTime()
+	zzverif.Assume(auth.Before(end))
+	oldTGT, oldKey := vhTicket("R", "krbtgt", "R"), vhKey()
+	cl.sessions.Entries["R"] = &session{realm: "R", authTime: auth, endTime: end, renewTill: renew, tgt: oldTGT, sessionKey: oldKey}
+	// the KDC renews the TGT when asked (TGS exchange); a fresh login (AS exchange) finds it unreachable
+	var rep messages.TGSRep
+	rep.PVNO, rep.MsgType, rep.CRealm, rep.CName = 5, 13, "R", cl.Credentials.CName()
+	rep.EncPart = types.EncryptedData{EType: 18, Cipher: []byte{1}}
+	rep.Ticket = messages.Ticket{TktVNO: 5, Realm: "R", SName: types.PrincipalName{NameType: 2, NameString: []string{"krbtgt", "R"}}, EncPart: types.EncryptedData{EType: 18, Cipher: []byte{7}}}
+	var enc messages.EncKDCRepPart
+	enc.Nonce = zzverif.Int()
+	enc.SRealm, enc.SName = "R", rep.Ticket.SName
+	enc.AuthTime, enc.StartTime = zzverif.Now(), zzverif.Now()
+	enc.EndTime, enc.RenewTill = zzverif.Now().Add(time.Hour), zzverif.Now().Add(2*time.Hour)
+	enc.Key = types.EncryptionKey{KeyType: 18, KeyValue: zzverif.Bytes(32)}
+	if zzverif.Param("renewable") == 1 {
+		zzverif.Assume(zzverif.Now().Before(renew))
+		zzverif.ScriptStub(vhKDC, "val", []byte{1})
+		zzverif.ScriptStub("TGSRep).Unmarshal", "val", rep)
+		zzverif.ScriptStub("crypto.DecryptEncPart", "val", []byte{1})
+		zzverif.ScriptStub("EncKDCRepPart).Unmarshal", "val", enc)
+	} else {
+		zzverif.Assume(!zzverif.Now().Before(renew))
+	}
+	for i := 0; i < 3; i++ {
+		zzverif.ScriptStub(vhKDC, "err")
+	}
+
+	tgt, key, err := cl.sessionTGT("R")
+
+	now := zzverif.Now()
+	n := zzverif.CallCount(vhKDC)
+	near := end.Sub(now) <= end.Sub(auth)/6
+	zzverif.Assert("kdc-contacted-exactly-when-the-tgt-is-in-its-last-sixth", (n > 0) == near)
+	if n == 0 {
+		zzverif.Reach("still-fresh")
+		zzverif.Assert("fresh-tgt-handed-out", err == nil && zzverif.EqBytes(tgt.EncPart.Cipher, oldTGT.EncPart.Cipher) && zzverif.EqBytes(key.KeyValue, oldKey.KeyValue))
+	} else if err == nil {
+		zzverif.Reach("refreshed")
+		s, _ := cl.sessions.get("R")
+		zzverif.Assert("handed-out-pair-is-the-sessions", zzverif.EqBytes(tgt.EncPart.Cipher, s.tgt.EncPart.Cipher) && zzverif.EqBytes(key.KeyValue, s.sessionKey.KeyValue))
+		zzverif.Assert("renewed-pair-issued-together", zzverif.EqBytes(tgt.EncPart.Cipher, rep.Ticket.EncPart.Cipher) == zzverif.EqBytes(key.KeyValue, enc.Key.KeyValue))
+	} else {
+		zzverif.Reach("refresh-failed")
+	}
+}
+
 // ---- C10: referral chains are followed only up to a fixed bound ---------------------------------------------
 
 // VH_C10_TGSReferralChain: a KDC that answers k times with a referral TGT for yet another realm and
